@@ -155,15 +155,9 @@ func (a *Agent) gatherCandidates(ctx context.Context, done chan struct{}) { //no
 		return
 	}
 
-	a.gatherCandidatesInternal(ctx)
-
-	switch a.continualGatheringPolicy {
-	case GatherOnce:
-		if _, err := a.setGatheringState(ctx, GatheringStateComplete); err != nil {
-			a.log.Warnf("Failed to set gatheringState to GatheringStateComplete: %v", err)
-		}
-	case GatherContinually:
-		// Initialize known interfaces before starting monitoring
+	if a.continualGatheringPolicy == GatherContinually {
+		// Initialize known interfaces before gathering: an address that appears while this
+		// cycle gathers must still look new to the monitor, or it would never be gathered.
 		_, addrs, err := localInterfaces(
 			a.net,
 			a.interfaceFilter,
@@ -184,6 +178,16 @@ func (a *Agent) gatherCandidates(ctx context.Context, done chan struct{}) { //no
 			}
 			a.log.Infof("Initialized network monitoring with %d IP addresses", len(addrs))
 		}
+	}
+
+	a.gatherCandidatesInternal(ctx)
+
+	switch a.continualGatheringPolicy {
+	case GatherOnce:
+		if _, err := a.setGatheringState(ctx, GatheringStateComplete); err != nil {
+			a.log.Warnf("Failed to set gatheringState to GatheringStateComplete: %v", err)
+		}
+	case GatherContinually:
 		go a.startNetworkMonitoring(ctx)
 	}
 }
